@@ -45,6 +45,38 @@ func (t traceResp) Context() context.Context {
 	return nil
 }
 
+// wrappers whose header / param maps are nil: the modifier removed everything
+type stripReq struct{ proxy.RequestWrapper }
+
+func (t stripReq) Headers() map[string][]string { return nil }
+func (t stripReq) Params() map[string]string    { return nil }
+func (t stripReq) Context() context.Context {
+	if c, ok := t.RequestWrapper.(interface{ Context() context.Context }); ok {
+		return c.Context()
+	}
+	return nil
+}
+
+type stripResp struct{ proxy.ResponseWrapper }
+
+func (t stripResp) Headers() map[string][]string { return nil }
+func (t stripResp) Context() context.Context {
+	if c, ok := t.ResponseWrapper.(interface{ Context() context.Context }); ok {
+		return c.Context()
+	}
+	return nil
+}
+
+func stripped(in interface{}) interface{} {
+	switch x := in.(type) {
+	case proxy.RequestWrapper:
+		return stripReq{x}
+	case proxy.ResponseWrapper:
+		return stripResp{x}
+	}
+	return in
+}
+
 func headersOf(in interface{}) map[string][]string {
 	switch x := in.(type) {
 	case proxy.RequestWrapper:
@@ -126,6 +158,9 @@ func threadCall(w *out.Writer, tag string, si *sharedInst, pe, pb pshape, ti thr
 	}
 	cs := &callState{thread: true, v0: ti.v0, t0: ti.t0, t0ok: ti.t0ok, beh: map[string][]string{"E": beh(pe), "B": beh(pb)}}
 	via := 2
+	if si.enc != "" {
+		via = 3
+	}
 	if si.kind == "plugin" {
 		if si.lv == "E" {
 			via = 0
@@ -156,7 +191,7 @@ func threadCall(w *out.Writer, tag string, si *sharedInst, pe, pb pshape, ti thr
 		t0 = emit.Some(traceCoq(ti.t0))
 	}
 	term := emit.App("CThread", emit.Nat(via), registryCoq(pe, pb), pe.coq(), pb.coq(), traceCoq(ti.v0), t0, emit.Pair(emit.List(evs), res))
-	js := map[string]interface{}{"kind": "values", "via": []string{"NewPluginMiddleware", "NewBackendPluginMiddleware", "DefaultFactory"}[via],
+	js := map[string]interface{}{"kind": "values", "via": []string{"NewPluginMiddleware", "NewBackendPluginMiddleware", "DefaultFactory", "DefaultFactory, output_encoding no-op"}[via],
 		"endpoint_plugins": pe.String(), "backend_plugins": pb.String(), "request_trace": ti.v0, "backend_response_trace": ti.t0, "backend_ok": ti.t0ok,
 		"observed": map[string]interface{}{"saw": strings.Join(hum, " "), "result_trace": resJS}, "stream": tag}
 	w.Count("values:via:" + fmt.Sprint(via))
@@ -170,6 +205,9 @@ func threadInst(via int, pe, pb pshape) *sharedInst {
 		return sharedPlugin("E", pe)
 	case 1:
 		return sharedPlugin("B", pb)
+	}
+	if via == 3 {
+		return sharedStackEnc(sshape{kind: "nons"}, pe, pb, "no-op")
 	}
 	return sharedStack(sshape{kind: "nons"}, pe, pb)
 }
@@ -206,12 +244,17 @@ func threadStreams(cfg out.Config, w *out.Writer, r *rng.R) {
 		{{"req", "modify"}, {"req", "fail"}, {"req", "modify"}, {"resp", "modify"}},
 		{{"req", "modify"}, {"resp", "modify"}, {"resp", "fail"}, {"resp", "modify"}},
 		{{"both", "modify"}, {"none", "modify"}, {"nonstring", "ok"}, {"resp", "modify"}},
+		// a modifier that strips every header / param (nil maps), last and in the middle
+		{{"req", "modify"}, {"req", "strip"}, {"resp", "modify"}, {"resp", "strip"}},
+		{{"req", "strip"}, {"req", "modify"}, {"resp", "strip"}, {"resp", "modify"}},
+		{{"req", "ok"}, {"req", "strip"}, {"req", "ignored"}},
 	}
 	for _, c := range corpus {
 		for k, ti := range threadIns {
 			one("corpus", 0, vshape(c, byPos), none, ti)
 			one("corpus", 1, none, vshape(c, byPos), ti)
 			one("corpus", 2, vshape(c, byPos), vshape(corpus[(k+1)%len(corpus)], byPos), ti)
+			one("corpus", 3, vshape(c, byPos), vshape(corpus[(k+2)%len(corpus)], byPos), ti)
 		}
 	}
 	// exhaustive small scope
@@ -256,6 +299,35 @@ func threadStreams(cfg out.Config, w *out.Writer, r *rng.R) {
 			}
 		}
 	}
+	// every sequence up to length 2 over {request,response} x {ok, modify, strip, ignored, fail}
+	alpha2 := []vletter{}
+	for _, g := range []string{"req", "resp"} {
+		for _, b := range []string{"ok", "modify", "strip", "ignored", "fail"} {
+			alpha2 = append(alpha2, vletter{g, b})
+		}
+	}
+	for _, a := range alpha2 {
+		for via := 0; via < 2; via++ {
+			for _, ls := range append([][]vletter{{a}}, func() [][]vletter {
+				var x [][]vletter
+				for _, b := range alpha2 {
+					x = append(x, []vletter{a, b})
+				}
+				return x
+			}()...) {
+				if !strings.Contains(fmt.Sprint(ls), "strip") {
+					continue // covered above
+				}
+				ps := vshape(ls, byPos)
+				if via == 0 {
+					one("exhaustive-strip", 0, ps, none, threadIns[1+k%3])
+				} else {
+					one("exhaustive-strip", 1, none, ps, threadIns[1+k%3])
+				}
+				k++
+			}
+		}
+	}
 	// DefaultFactory: endpoint lists x backend lists
 	lists := [][]vletter{
 		{},
@@ -264,18 +336,19 @@ func threadStreams(cfg out.Config, w *out.Writer, r *rng.R) {
 		{{"req", "ignored"}, {"req", "modify"}, {"resp", "ignored"}, {"resp", "modify"}},
 		{{"req", "modify"}, {"req", "fail"}},
 		{{"resp", "modify"}, {"resp", "fail"}, {"resp", "modify"}},
+		{{"req", "modify"}, {"req", "strip"}, {"resp", "strip"}},
 	}
 	for i, le := range lists {
 		for j, lb := range lists {
 			for q := 0; q < 2; q++ {
-				one("factory", 2, vshape(le, byPos), vshape(lb, byPos), threadIns[(i+j+q)%len(threadIns)])
+				one("factory", 2+q, vshape(le, byPos), vshape(lb, byPos), threadIns[(i+j+q)%len(threadIns)])
 			}
 		}
 	}
 	// random
 	full := []vletter{{"none", "ok"}, {"nonstring", "ok"}}
 	for _, g := range []string{"req", "resp", "both"} {
-		for _, b := range []string{"ok", "modify", "modify", "ignored", "fail", "nilfactory"} {
+		for _, b := range []string{"ok", "modify", "modify", "strip", "ignored", "fail", "nilfactory"} {
 			full = append(full, vletter{g, b})
 		}
 	}
@@ -297,13 +370,15 @@ func threadStreams(cfg out.Config, w *out.Writer, r *rng.R) {
 	}
 	for i := 0; i < nRand; i++ {
 		ti := threadIns[r.Intn(len(threadIns))]
-		switch r.Intn(3) {
+		switch r.Intn(4) {
 		case 0:
 			one("random", 0, vshape(randList(8), byRng), none, ti)
 		case 1:
 			one("random", 1, none, vshape(randList(8), byRng), ti)
-		default:
+		case 2:
 			one("random", 2, vshape(randList(6), byRng), vshape(randList(6), byRng), ti)
+		default:
+			one("random", 3, vshape(randList(6), byRng), vshape(randList(6), byRng), ti)
 		}
 	}
 	// one instance, a sequence of calls with different behaviours and values: a wrapper or a
@@ -323,8 +398,10 @@ func threadStreams(cfg out.Config, w *out.Writer, r *rng.R) {
 		{"ignored", "modify", "modify", "fail-mod", "ok"},
 		{"modify", "modify", "ok", "modify", "modify"},
 		{"ok", "modify", "ignored", "ok", "modify"},
+		{"modify", "ok", "strip", "strip", "ok"},
+		{"modify", "modify", "modify", "modify", "modify"},
 	}
-	for via := 0; via < 3; via++ {
+	for via := 0; via < 4; via++ {
 		pe, pb := seqShape(steps[0]...), seqShape(steps[0]...)
 		if via == 0 {
 			pb = none
